@@ -27,6 +27,7 @@ META = {
         "C03.P2 SecsStreamFunction encode/decode/get delegate to the variable tree and treat only `data is None` as header-only",
         "C03.P3 Dynamic._match_type tries preferred Python types (in declared order) before generic support; preferred_types table",
         "C03.P4 Dynamic.decode refuses only unsupported format codes (shared with C02.T1)",
+        "C03.P5 every class a data item lists as an allowed type can be built the way Dynamic._match_type builds its candidates (count only)",
     ],
     "does_not_decide": ["which alternative type Dynamic picks for an arbitrary plain value (value dependent)", "value equality of the body round trip beyond C01"],
     "assumptions": ["PyYAML parses the catalogues as the library's generator did"],
@@ -369,7 +370,40 @@ def check_match_type(ctx):
         ctx.ob("C03.P3", cname, ok, f"{cname} prefers {want}" if ok else f"{cname}.preferred_types is {got}, expected {want}", key="preferred", where=cls.where)
 
 
+def check_candidate_constructors(ctx):
+    """C03.P5: `Dynamic._match_type` (and `set`) build every candidate type as `var_type(count=...)`.  Every class that a
+    data item lists among its allowed types must therefore be constructible from `count` alone - otherwise a plain Python
+    value for which that candidate is tried raises TypeError instead of being stored."""
+    repo = ctx.repo
+    mt = repo.method("Dynamic", "_match_type", inherited=False)
+    ctx.touch(mt)
+    from .. import inline
+
+    inst = [c for c in calls_in(inline.expanded(ctx, mt)) if isinstance(c.func, ast.Name) and not c.args and [k.arg for k in c.keywords] == ["count"]]
+    ctx.require(inst, "Dynamic._match_type: candidates are no longer instantiated as `var_type(count=...)` - the constructor rule has lost its anchor")
+    users: dict[str, list] = {}
+    for c in repo.classes.values():
+        expr = c.consts.get("__allowedtypes__")
+        if isinstance(expr, (ast.List, ast.Tuple)):
+            for e in expr.elts:
+                users.setdefault((dotted(e) or "").split(".")[-1], []).append(c.name)
+    ctx.floor("data items with a list of allowed types", sum(len(v) for v in users.values()), 50)
+    for tname in sorted(users):
+        if not repo.has_cls(tname):
+            continue
+        init = repo.cls(tname).find_method("__init__")
+        args = init.node.args
+        names = [a.arg for a in args.args][1:]
+        with_default = set(names[len(names) - len(args.defaults):]) if args.defaults else set()
+        required = [n for n in names if n not in with_default and n != "count"]
+        ok = not required
+        ctx.ob("C03.P5", tname, ok, f"{tname}(count=...) is a complete constructor call" if ok else
+               f"{tname}.__init__ requires {required}, but Dynamic._match_type builds candidates as `var_type(count=...)`: a plain Python list given to any of the {len(users[tname])} data items that "
+               f"allow {tname} ({', '.join(sorted(users[tname])[:6])}, ...) raises TypeError instead of being stored", key="candidate-ctor " + tname, where=mt.where)
+
+
 def run(ctx):
+    check_candidate_constructors(ctx)
     classes, facts = check_functions(ctx)
     check_pairing(ctx, classes, facts)
     items = check_data_items(ctx)
@@ -387,5 +421,8 @@ def run(ctx):
     from .. import report
 
     report.share(ctx, "C03.T3", c01.check_text)
+    # ... and a body of any length is read back: the item header's length bytes are taken one by one, most significant
+    # first (the bit-level header rules of C01.B2 / C02.B2)
+    _items.check_header_decode(ctx, "C03.T3", "Base", "decode_item_header", "variables", require_all_accepted=False)
     n = _items.check_numeric_table(ctx, "C03.T3", c01.NUMERIC, c01.VAR_ATTRS)
     ctx.floor("numeric classes", n, 10)
